@@ -271,10 +271,61 @@ func (ch c09) Run(c *core.Ctx) {
 		if !ch.judge(c, t, out, closed, cl.C.Events()[evStart:], i) {
 			cl = nil
 		}
+		if i%12 == 5 {
+			ch.mixed(c, env, core.NewRng(c.Seed, "C09m", c.Batch, i), i)
+		}
 	}
 	if cl != nil {
 		cl.Finish()
 	}
+}
+
+// mixed: the unnamed portal is bound and described, then a simple Query served by another statement
+// runs, then the portal is executed. The simple Query may have destroyed the unnamed portal (an error is
+// then the answer); if it still executes, its rows are the rows of its own statement in the described
+// format.
+func (ch c09) mixed(c *core.Ctx, env *hs.Env, rng *core.Rng, idx int) {
+	t := c09gen(rng, false)
+	if len(t.OIDs) == 0 || len(t.OIDs) > 200 {
+		return
+	}
+	cols := wire.Columns{}
+	for j, o := range t.OIDs {
+		cols = append(cols, wire.Column{Name: fmt.Sprintf("c%d", j), Oid: oid.Oid(o), Width: -1})
+	}
+	st := &hs.Stmt{ID: fmt.Sprintf("m%d", idx), Cols: cols}
+	for _, r := range t.Rows {
+		st.Ops = append(st.Ops, hs.Op{K: "row", Vals: r})
+	}
+	st.Ops = append(st.Ops, hs.Op{K: "complete", Tag: fmt.Sprintf("SELECT %d", len(t.Rows))})
+	other := &hs.Stmt{ID: "other", Cols: wire.Columns{{Name: "o", Oid: oid.T_text, Width: -1}}, Ops: []hs.Op{{K: "row", Vals: []any{"other"}}, {K: "complete", Tag: "SELECT 1"}}}
+	sess := &hs.Sess{Progs: map[string]*hs.Prog{"mixed-table": {Stmts: []*hs.Stmt{st}}, "other-table": {Stmts: []*hs.Stmt{other}}}}
+	cl := hs.NewClient(env.Dial(sess))
+	if err := cl.StartupOK("u"); err != nil {
+		c.Violate("startup", "startup failed", err.Error(), nil)
+		return
+	}
+	defer cl.Finish()
+	cs := map[string]any{"table": t.sig(), "workload": "simple query between Describe and Execute of the unnamed portal"}
+	out1, _ := cl.Step(append(append(append(pg.Parse("", "mixed-table", nil), pg.Bind("", "", nil, nil, t.RFmts)...), pg.Describe('P', "")...), pg.Sync()...))
+	if k := pg.Types(mustMsgs(out1)); k != "12TZ" {
+		return // a format vector the server does not take: judged elsewhere
+	}
+	if out2, _ := cl.Step(pg.Query("other-table")); pg.Types(mustMsgs(out2)) != "TDCZ" {
+		c.Violate("mixed", "simple query between Describe and Execute of a portal not answered T D C Z", replyKinds(out2), cs)
+		return
+	}
+	evStart := len(cl.C.Events())
+	out3, closed := cl.Step(append(pg.Execute("", 0), pg.Sync()...))
+	if hangCheck(c, cl, cs) {
+		return
+	}
+	c.Count("portals_executed_after_a_simple_query", 1)
+	if k := pg.Types(mustMsgs(out3)); k == "EZ" {
+		c.Count("unnamed_portal_gone_after_a_simple_query", 1)
+		return
+	}
+	ch.judge(c, t, append(append([]byte{}, out1[10:len(out1)-6]...), out3...), closed, cl.C.Events()[evStart:], idx+1000000)
 }
 
 func (ch c09) judge(c *core.Ctx, t c09table, out []byte, closed bool, evs []trEvent, idx int) bool {
